@@ -15,6 +15,7 @@ type bpfShared struct {
 	mode    string
 	bound   map[*Value]*LLMap
 	now     *Term
+	skbLen  *Term
 	lastPkt *LLObj
 	events  int
 }
@@ -163,10 +164,14 @@ func init() {
 		in.bpf().now = a[0].(*Term)
 		return nil
 	}
+	h["vBPFSkbLen"] = func(in *Interp, fr *frame, a []Value) Value {
+		in.bpf().skbLen = in.tc.Resize(a[0].(*Term), 32, false)
+		return nil
+	}
 	h["vBPFRun"] = func(in *Interp, fr *frame, a []Value) Value {
 		prog, entry, kind := a[0].(string), a[1].(string), a[2].(string)
 		b := in.bpf()
-		env := &LLEnv{Packet: in.PacketFromSlice("pkt", a[3].(SliceV)), Maps: in.bpfMapsFor(prog), Now: b.now}
+		env := &LLEnv{Packet: in.PacketFromSlice("pkt", a[3].(SliceV)), Maps: in.bpfMapsFor(prog), Now: b.now, SkbLen: b.skbLen}
 		run, _ := in.RunBPF(prog, entry, kind, env)
 		b.lastPkt = run.Packet
 		b.events = len(env.Events)
